@@ -240,8 +240,9 @@ def _canon_zero(fd: Fmt, v):
 def expected_round(fd: Fmt, x, n: int | None = None) -> Expect:
     """Expected outcome of ctx.round(x) (n is None) / ctx.round_at(x, n)."""
     if fd.real:
-        if x[0] == 'fin':
-            return Expect([x], inexact=False, overflow=False)
+        # the identity: value unchanged; flags of the operand are carried along
+        # (e.g. ceil under REAL hands an already-flagged value through), so
+        # they are not judged here
         return Expect([x])
     if fd.positive_only:
         return _expected_exp(fd, x, n)
